@@ -143,12 +143,12 @@ void parallel_for_staticImpl(
     auto stateIt = states.begin();
     std::advance(stateIt, static_cast<ptrdiff_t>(callerChunk));
     auto callerBounds = chunkRange(callerChunk);
-    {
+    detail::runCallerShare(taskSet, [&]() {
       // Mark caller as inside parallel_for so nested parallel_for calls
       // skip the ring fast path.
       auto recurseInfo = detail::PerPoolPerThreadInfo::parForRecurse();
       f(*stateIt, callerBounds.first, callerBounds.second);
-    }
+    });
     taskSet.wait();
   }
 }
